@@ -20,7 +20,7 @@ for pid in sorted(PROPS):
 
 manifest = {
     "version": 1,
-    "setup_cmd": "cd /verif && ./check --build",
+    "setup_cmd": "cd /verif && ./check --build && ./check --selftest conformance",
     "hooks": {
         "guard": "none",
         "enable": "no source hooks: the seam is the libc symbol boundary (link-time interposition in the harness binary); /repo is compiled unmodified as a path dependency",
